@@ -164,6 +164,11 @@ def reference(methods):
             groups[rid]["members"].append(m)
     for rid, g in groups.items():
         ms = g["members"]
+        names = sorted({h for m in ms for h in m.claims() if upper_snake_ref(h) == rid})
+        if len(names) > 1:
+            # distinct handler names must get distinct ids (C08): names sharing a constant cannot both be served
+            valid = False
+            why.append("%s: handler names %s share one reply id constant" % (rid, "/".join(names)))
         for i in range(len(ms)):
             for k in range(i + 1, len(ms)):
                 if excludes(ms[i].on, ms[k].on):
@@ -290,8 +295,14 @@ def mutate_invalid(rng, methods):
         m.payload = [("pl", P("Binary"))]
     elif kind == "same_const":
         # handler names with the same constant image (handler1 / handler_1)
-        methods.append(RMethod(name="clash", on=m.on, handlers=["handler_1"], payload=list(m.payload), raw=m.raw))
-        methods.append(RMethod(name="clash2", on=m.on, handlers=["handler1"], payload=list(m.payload), raw=m.raw))
+        # (same outcome, or complementary outcomes that would merge into one entry if the names were equal)
+        a, b = rng.sample(["handler_1", "handler1", "handler__1"], 2) if rng.random() < 0.7 else rng.sample(["on_2_done", "on2_done", "on__2_done"], 2)
+        on2 = m.on if rng.random() < 0.3 else {"success": "error", "error": "success", "always": "error"}[m.on]
+        on1 = m.on if m.on != "always" else "success"
+        methods.append(RMethod(name="clash", on=on1, handlers=[a], payload=list(m.payload), raw=m.raw))
+        methods.append(RMethod(name="clash2", on=on2, handlers=[b], payload=list(m.payload), raw=m.raw))
+        if rng.random() < 0.5:
+            methods[-1], methods[-2] = methods[-2], methods[-1]
 
 
 # ------------------------------------------------------------------------------------------ L1 canonicaliser
